@@ -1,3 +1,4 @@
+\* generated by mkstorecfg.py - C14: ways to halt x reorg points x continuation
 CONSTANTS
   Kind = "bridge"
   Fixed = TRUE
